@@ -1356,7 +1356,8 @@ protected:
             case res_item: internal_reserve(tmp); break;
             case rel_res:  internal_release(tmp); try_forwarding = true; break;
             case con_res:  internal_consume(tmp); try_forwarding = true; break;
-            case put_item: try_forwarding = internal_push(tmp); break;
+            // a rejected put (sequencer_node: duplicate tag) must not withdraw a forwarding request of the same batch
+            case put_item: if (internal_push(tmp)) try_forwarding = true; break;
             case try_fwd_task: internal_forward_task(tmp); break;
             }
         }
